@@ -283,3 +283,45 @@ def _astype(self, dt, copy=True):
     c = cast_fn(dt)
     return ND.fresh(self.shape, lambda idx: c(g(idx)), dt)
 ND.astype = _astype
+
+
+def _reshape_general(self, shape, order='C'):
+    """1-D -> 2-D reshape; one extent may be -1 (inferred); ValueError when the size does not divide"""
+    if isinstance(shape, int):
+        shape = (shape,)
+    assert self.ndim == 1 and len(shape) == 2 and order == 'C'
+    n = zi(self.shape[0])
+    r, c = shape
+    if isinstance(r, int) and r == -1:
+        cz = zi(c)
+        if not decide(cz > 0) or not decide(n % cz == 0):
+            raise ValueError('cannot reshape array')
+        r = conc(SInt(z3.simplify(n / cz)))
+    elif isinstance(c, int) and c == -1:
+        rz = zi(r)
+        if not decide(rz > 0) or not decide(n % rz == 0):
+            raise ValueError('cannot reshape array')
+        c = conc(SInt(z3.simplify(n / rz)))
+    else:
+        ok = SInt(n) == SInt(zi(r) * zi(c))
+        if not ok:
+            raise ValueError('cannot reshape array')
+    g = self.snapshot()
+    cz = zi(c)
+    return ND.fresh((conc(r) if isinstance(r, SInt) else r, conc(c) if isinstance(c, SInt) else c), lambda idx: g((idx[0] * cz + idx[1],)), self.dtype)
+ND.reshape = _reshape_general
+
+
+def _squeeze(self):
+    shape = self.shape
+    keep = [k for k, n in enumerate(shape) if not decide(zi(n) == 1)]
+    g = self.snapshot()
+    nd_ = len(shape)
+
+    def get(idx):
+        full = [z3.IntVal(0)] * nd_
+        for j, k in enumerate(keep):
+            full[k] = idx[j]
+        return g(tuple(full))
+    return ND.fresh(tuple(shape[k] for k in keep), get, self.dtype)
+ND.squeeze = _squeeze
